@@ -89,9 +89,11 @@ def _do_cmd(command, timeout, **kwargs):
             os.killpg(os.getpgid(proc.pid), signal.SIGKILL)
             proc.communicate()
             LOG.debug("[%s] {timed out}", kwargs.get('cwd', os.getcwd()))
+            # do not chain the original exception: its message holds the
+            # command line (hence the credentials) unmasked
             raise CommandError(
-                "Command %s timed out." % mask_pwd(command)) from err
+                "Command %s timed out." % mask_pwd(command)) from None
         except CommandError:
             raise
         except Exception as err:
-            raise CommandError(mask_pwd(str(err))) from err
+            raise CommandError(mask_pwd(str(err))) from None
